@@ -64,21 +64,20 @@ Proof.
       subst a. assert (E : s2 S (OArr (ODetachIdx None w)) = (S, RPtr None)).
       { apply s2_arr_same. cbn [spec_step]. unfold spec_detach_index. destruct (w <? 0); cbn; by rewrite keep_same. }
       rewrite E. apply Step_same. intros h _. cbn [run_op2 run_op]. unfold cJSON_DetachItemFromArray.
-      destruct (w <? 0); [done|]. by rewrite (bindM_Ret _ _ _ _ _ (get_array_item_null w h)).
+      by destruct (w <? 0).
     + (* insert, NULL array *)
       subst a. assert (E : s2 S (OArr (OInsert None w n)) = (S, RBool false)).
       { apply s2_arr_same. cbn [spec_step]. unfold spec_insert. destruct n as [x|]; [|by rewrite keep_same].
         rewrite bool_decide_false by done. rewrite orb_false_r.
         destruct (w <? 0); cbn [spec_get_index spec_add_to_array]; by rewrite keep_same. }
       rewrite E. apply Step_same. intros h _. cbn [run_op2 run_op]. unfold cJSON_InsertItemInArray.
-      destruct (w <? 0); [done|]. destruct n as [x|]; [|done]. cbn [is_null orb ptr_eqb].
-      by rewrite (bindM_Ret _ _ _ _ _ (get_array_item_null w h)).
+      destruct (w <? 0); [done|]. by destruct n as [x|].
     + (* replace by index *)
       destruct Href as [->|[Hw|(p & d & cs & (-> & Hp & Hr) & Hcase)]].
       * assert (E : s2 S (OArr (OReplaceIdx None w n)) = (S, RBool false)).
         { apply s2_arr_same. cbn [spec_step]. unfold spec_replace_index. destruct (w <? 0); cbn; by rewrite keep_same. }
         rewrite E. apply Step_same. intros h _. cbn [run_op2 run_op]. unfold cJSON_ReplaceItemInArray.
-        destruct (w <? 0); [done|]. by rewrite (bindM_Ret _ _ _ _ _ (get_array_item_null w h)).
+        by destruct (w <? 0).
       * apply Z.ltb_lt in Hw.
         assert (E : s2 S (OArr (OReplaceIdx a w n)) = (S, RBool false)).
         { apply s2_arr_same. cbn [spec_step]. unfold spec_replace_index. rewrite Hw. by rewrite keep_same. }
@@ -96,18 +95,18 @@ Proof.
         destruct (cJSON_ReplaceItemViaPointer_refused h _ p d cs _ n W Hp Hr Hcase') as [Hspec Hrun].
         assert (E : s2 S (OArr (OReplaceIdx (Some p) w n)) = (S, RBool false)).
         { apply s2_arr_same. cbn [spec_step]. unfold spec_replace_index. rewrite Hge'.
-          fold (a_forest S). rewrite Hspec. by rewrite keep_same. }
-        rewrite E. exists h. split; [|apply HA]. cbn [run_op2 run_op fst snd]. unfold cJSON_ReplaceItemInArray. rewrite Hge'.
+          unfold a_forest in Hspec. rewrite Hspec. by rewrite keep_same. }
+        rewrite E. exists h. split; [|apply HA]. cbn [run_op2 run_op fst snd]. unfold cJSON_ReplaceItemInArray. rewrite Hge'. rewrite !bindM_assoc.
         rewrite (bindM_Ret _ _ _ _ _ (get_array_item_sim h _ p d cs w W Hp Hr Hge)). by rewrite (bindM_Ret _ _ _ _ _ Hrun).
     + (* delete by index *)
       destruct Href as [->|[Hw|(p & d & cs & (-> & Hp & Hr) & Hlen)]].
       * assert (E : s2 S (OArr (ODeleteIdx None w)) = (S, RUnit)).
         { apply s2_arr_same. cbn [spec_step]. unfold spec_delete_index, spec_detach_index. destruct (w <? 0); cbn; by rewrite keep_same. }
         rewrite E. apply Step_same. intros h _. cbn [run_op2 run_op]. unfold cJSON_DeleteItemFromArray, cJSON_DetachItemFromArray.
-        destruct (w <? 0).
-        -- rewrite bindM_assoc, bindM_ret. by rewrite (bindM_Ret _ _ _ _ _ (cJSON_Delete_null h)).
-        -- rewrite !bindM_assoc. rewrite (bindM_Ret _ _ _ _ _ (get_array_item_null w h)). cbn [cJSON_DetachItemViaPointer is_null orb].
-           rewrite bindM_ret. by rewrite (bindM_Ret _ _ _ _ _ (cJSON_Delete_null h)).
+        assert (Hd : forall q : ptr, (cJSON_Delete q ;;; ret RUnit) h = Ret (RUnit, h) -> 
+                  (x <~ ret q ;; cJSON_Delete x ;;; ret RUnit) h = Ret (RUnit, h)) by (intros q Hq; exact Hq).
+        destruct (w <? 0); cbn [bindM ret is_null orb get_array_item cJSON_DetachItemViaPointer];
+          by rewrite (bindM_Ret _ _ _ _ _ (cJSON_Delete_null h)).
       * apply Z.ltb_lt in Hw.
         assert (E : s2 S (OArr (ODeleteIdx a w)) = (S, RUnit)).
         { apply s2_arr_same. cbn [spec_step]. unfold spec_delete_index, spec_detach_index. rewrite Hw. cbn. by rewrite keep_same. }
@@ -116,7 +115,7 @@ Proof.
       * apply Step_intro; [apply Cons_run_op2|]. intros h HA. pose proof HA as [((W & _) & _) _].
         destruct (cJSON_DetachItemFromArray_refused h _ p d cs w W Hp Hr (or_intror Hlen)) as [Hspec Hrun].
         assert (E : s2 S (OArr (ODeleteIdx (Some p) w)) = (S, RUnit)).
-        { apply s2_arr_same. cbn [spec_step]. unfold spec_delete_index. fold (a_forest S). rewrite Hspec. cbn. by rewrite keep_same. }
+        { apply s2_arr_same. cbn [spec_step]. unfold spec_delete_index. unfold a_forest in Hspec. rewrite Hspec. cbn. by rewrite keep_same. }
         rewrite E. exists h. split; [|apply HA]. cbn [run_op2 run_op fst snd]. unfold cJSON_DeleteItemFromArray.
         rewrite !bindM_assoc. rewrite (bindM_Ret _ _ _ _ _ Hrun). by rewrite (bindM_Ret _ _ _ _ _ (cJSON_Delete_null h)).
   - (* lookup by key with a NULL object / name *)
@@ -180,4 +179,34 @@ Proof.
   - intros H. apply orb_true_iff in H as [H|H]; [left|right]; by apply is_none_None.
   - intros H. apply orb_true_iff in H as [H|H]; [left|right]; by apply is_none_None.
   - intros H. apply orb_true_iff in H as [H|H]; [left|right]; by apply is_none_None.
+Qed.
+
+(** … and the abstract state is literally unchanged *)
+Lemma refused2_unchanged h S o : Abs3 h S -> refused2 S o -> (s2 S o).1 = S.
+Proof.
+  intros HA Href. pose proof HA as [((W & _) & _) _].
+  destruct o as [o|c|ob n i ck|ob n cs|ob n cs|ob n cs]; try done.
+  - destruct o as [ty|a i|pa it|a w|a w n|pa it rp|a w n|it|a w|a|a i]; try done; cbn [refused2] in Href.
+    + subst a. erewrite s2_arr_same; [done|]. cbn [spec_step]. unfold spec_detach_index. destruct (w <? 0); cbn; by rewrite keep_same.
+    + subst a. erewrite s2_arr_same; [done|]. cbn [spec_step]. unfold spec_insert. destruct n as [x|]; [|by rewrite keep_same].
+      rewrite bool_decide_false by done. rewrite orb_false_r.
+      destruct (w <? 0); cbn [spec_get_index spec_add_to_array]; by rewrite keep_same.
+    + erewrite s2_arr_same; [done|]. cbn [spec_step]. unfold spec_replace_index.
+      destruct (Z.ltb_spec w 0) as [Hlt|Hge]; [by rewrite keep_same|].
+      destruct Href as [->|[Hw|(p & d & cs & (-> & Hp & Hr) & Hcase)]]; [cbn; by rewrite keep_same|lia|].
+      assert (Hcase' : cs = [] \/ spec_get_index (a_forest S) (Some p) w = None \/ n = None).
+      { destruct Hcase as [?|[?|Hlen]]; [by right; right|by left|right; left].
+        unfold spec_get_index, children_of. rewrite Hp. cbn. apply lookup_ge_None. by rewrite fmap_length. }
+      destruct (cJSON_ReplaceItemViaPointer_refused h _ p d cs _ n W Hp Hr Hcase') as [Hspec _].
+      unfold a_forest in Hspec. rewrite Hspec. by rewrite keep_same.
+    + erewrite s2_arr_same; [done|]. cbn [spec_step]. unfold spec_delete_index.
+      destruct Href as [->|[Hw|(p & d & cs & (-> & Hp & Hr) & Hlen)]].
+      * unfold spec_detach_index. destruct (w <? 0); cbn; by rewrite keep_same.
+      * unfold spec_detach_index. apply Z.ltb_lt in Hw. rewrite Hw. cbn. by rewrite keep_same.
+      * destruct (cJSON_DetachItemFromArray_refused h _ p d cs w W Hp Hr (or_intror Hlen)) as [Hspec _].
+        unfold a_forest in Hspec. rewrite Hspec. cbn. by rewrite keep_same.
+  - cbn [refused2] in Href. unfold s2. cbn [spec_step2]. unfold spec_detach_key. rewrite (spec_get_key_null _ _ _ _ _ Href).
+    rewrite spec_detach_null_item. cbn [fst snd]. by rewrite with_forest_same.
+  - cbn [refused2] in Href. unfold s2. cbn [spec_step2]. unfold spec_delete_key, spec_detach_key. rewrite (spec_get_key_null _ _ _ _ _ Href).
+    rewrite spec_detach_null_item. cbn [spec_delete fst snd]. by rewrite with_forest_same.
 Qed.
